@@ -56,7 +56,7 @@ PROP = dict(
     assumptions=[
         "bcrypt uses only the first 72 bytes of password+NUL (cyclically extended): the engine's bcrypt stand-in reproduces exactly that equivalence; in the theorems bcrypt is an arbitrary predicate",
         "the WebSocket transport is exercised for real by op ws (handshake, subprotocol, Basic gate, binary framing); in the model it is the gate followed by the same Handler.Handle",
-        "ws harness synchronisation: the client closes once every goroutine running internal/socks5 or nhooyr.io/websocket code is parked (goroutine profile), deadline 5 s -> `timeout ws-quiesce`",
+        "ws harness synchronisation: a WebSocket ping sent after the input is the barrier (the server answers it from inside the handler's next Read, frames are ordered; a server-side close ends the wait too); own listener on port 0 per op, stopped and waited for before the op returns; deadlines 5 s -> `timeout ws-ping` / `timeout ws-close`",
         "equality-level matching fails for bcrypt itself (open finding C21-bcrypt-equivalent-password, C21_strict_refuted); C21_holds reads 'matching' as 'the configured hash verifies the presented password'",
     ],
     manifest=dict(
